@@ -76,39 +76,47 @@ package fasthttp
 //@ func validHeaderValueByte
 //@   trusted
 //@   pure
-// hasHeaderValue: trusted for the two spellings used above (its scanner loop is not verified here).
-//@ func hasHeaderValue results r
-//@   trusted
-//@   pure
-//@   ensures sameSlice(value, strClose) && (closeFirst(s, len(s)) || closeLast(s, len(s))) ==> r
-
-// C10, client side: a response whose Connection header says close (same spellings as above) leaves connectionClose
-// set, so the client does not put the connection back into its pool.
-//@ func ResponseHeader.parseHeaders results n err
+// stripSpace returns b without leading and trailing spaces (a window of b; untouched when there are none).
+//@ func stripSpace results r
 //@   property C10
-//@   mode skeleton
-//@   stable h.noHTTP11 h.secureErrorLogMessage h.disableNormalizing
-//@   ghost saidClose bool = false
-//@   on call caseInsensitiveCompare(a, b) -> r:
-//@     nohavoc
-//@     effect saidClose = saidClose || (r && sameSlice(b, strConnection) && (closeFirst(s.value, len(s.value)) || closeLast(s.value, len(s.value))))
-//@   on call headerScanner.next -> more:
-//@     havoc heap
-//@   on call header.SetTrailerBytes -> e:
-//@     nohavoc
-//@     modifies h.trailer
-//@   on call ResponseHeader.ConnectionUpgrade -> u:
-//@     nohavoc
-//@   on call ResponseHeader.mustSkipContentLength -> m:
-//@     nohavoc
-//@   on call allocArg -> a, k:
-//@     nohavoc
-//@   on call getCookieKey -> k:
-//@     havoc heap
-//@   end
-//@   ensures[error-closes] err != nil ==> h.connectionClose
-//@   ensures[said-close-closes] err == nil && saidClose ==> h.connectionClose
+//@   pure
+//@   ensures[window] rgn(r) == rgn(old(b)) && off(old(b)) <= off(r) && off(r) + len(r) <= off(old(b)) + len(old(b))
+//@   ensures[tight] len(r) == 0 || (r[0] != ' ' && r[len(r)-1] != ' ')
+//@   ensures[untouched-when-tight] len(old(b)) > 0 && old(b[0]) != ' ' && old(b[len(b)-1]) != ' ' ==> off(r) == off(old(b)) && len(r) == len(old(b))
+//@   ensures[only-spaces-dropped] (forall j in [0, off(r) - off(old(b))): old(b[j]) == ' ') && (forall j in [off(r) - off(old(b)) + len(r), len(old(b))): old(b[j]) == ' ')
 //@   loop 1:
-//@     invariant[said-close-recorded] saidClose ==> h.connectionClose
+//@     invariant[window] rgn(b) == rgn(old(b)) && off(old(b)) <= off(b) && off(b) + len(b) == off(old(b)) + len(old(b))
+//@     invariant[dropped] forall j in [0, off(b) - off(old(b))): old(b[j]) == ' '
 //@   loop 2:
-//@     invariant[said-close-kept] saidClose ==> h.connectionClose
+//@     invariant[window] rgn(b) == rgn(old(b)) && off(old(b)) <= off(b) && off(b) + len(b) <= off(old(b)) + len(old(b)) && (len(b) == 0 || b[0] != ' ' )
+//@     invariant[dropped] (forall j in [0, off(b) - off(old(b))): old(b[j]) == ' ') && (forall j in [off(b) - off(old(b)) + len(b), len(old(b))): old(b[j]) == ' ')
+
+// headerValueScanner.next: the next list element is what lies before the first comma of the rest (spaces stripped),
+// the rest continues after that comma; without a comma the whole rest is the last element.
+//@ func headerValueScanner.next results more
+//@   property C10
+//@   modifies s
+//@   ensures[more] more == (old(len(s.b)) > 0)
+//@   ensures[rest-is-a-suffix] more ==> rgn(s.b) == rgn(old(s.b)) && off(s.b) + len(s.b) == off(old(s.b)) + old(len(s.b)) && len(s.b) < old(len(s.b))
+//@   ensures[rest-after-first-comma] more ==> (len(s.b) == 0 && (forall j in [0, old(len(s.b))): old(s.b[j]) != ',')) ||
+//@                          (off(s.b) - off(old(s.b)) >= 1 && old(s.b[off(s.b) - off(old(s.b)) - 1]) == ',' && (forall j in [0, off(s.b) - off(old(s.b)) - 1): old(s.b[j]) != ','))
+//@   ensures[last-element] more && (forall j in [0, old(len(s.b))): old(s.b[j]) != ',') ==> len(s.b) == 0 &&
+//@                         rgn(s.value) == rgn(old(s.b)) && off(old(s.b)) <= off(s.value) && off(s.value) + len(s.value) <= off(old(s.b)) + old(len(s.b)) &&
+//@                         (old(s.b[0]) != ' ' && old(s.b[len(s.b)-1]) != ' ' ==> off(s.value) == off(old(s.b)) && len(s.value) == old(len(s.b))) &&
+//@                         (old(len(s.b)) >= 2 && old(s.b[0]) == ' ' && old(s.b[1]) != ' ' && old(s.b[len(s.b)-1]) != ' ' ==> off(s.value) == off(old(s.b)) + 1 && len(s.value) == old(len(s.b)) - 1)
+//@   ensures[element-before-first-comma] forall c in [0, old(len(s.b))): old(s.b[c]) == ',' && (forall j in [0, c): old(s.b[j]) != ',') ==>
+//@                         more && rgn(s.b) == rgn(old(s.b)) && off(s.b) == off(old(s.b)) + c + 1 && len(s.b) == old(len(s.b)) - c - 1 &&
+//@                         rgn(s.value) == rgn(old(s.b)) && off(old(s.b)) <= off(s.value) && off(s.value) + len(s.value) <= off(old(s.b)) + c &&
+//@                         (c > 0 && old(s.b[0]) != ' ' && old(s.b[c-1]) != ' ' ==> off(s.value) == off(old(s.b)) && len(s.value) == c)
+
+// hasHeaderValue: proved for the spellings used by the parsers above -- the value is the first element directly
+// followed by a comma (or the whole list), or the last element directly preceded by "," or ", ".
+//@ func hasHeaderValue results r
+//@   property C10
+//@   pure
+//@   ensures[first-or-last-close] sameSlice(value, strClose) && (closeFirst(s, len(s)) || closeLast(s, len(s))) ==> r
+//@   loop 1:
+//@     invariant[suffix] rgn(vs.b) == rgn(s) && off(s) <= off(vs.b) && off(vs.b) + len(vs.b) == off(s) + len(s) && (off(vs.b) == off(s) || s[off(vs.b) - off(s) - 1] == ',')
+//@     invariant[first-still-ahead] sameSlice(value, strClose) && closeFirst(s, len(s)) ==> off(vs.b) == off(s)
+//@     invariant[last-still-ahead] sameSlice(value, strClose) && closeLast(s, len(s)) ==> len(vs.b) >= 5
+//@     decreases len(vs.b)
